@@ -11,7 +11,8 @@
                     since the repair of F21/F24). *)
 From Coq Require Import List ZArith NArith Bool.
 From TF Require Import Base Query Index DB Spec proofs.QueryP proofs.IndexDefs proofs.ScanP proofs.IndexP
-     proofs.RepP proofs.DBReadP proofs.SelectP proofs.TimeP.
+     proofs.RepP proofs.DBReadP proofs.SelectP proofs.TimeP QueryObj proofs.GuardGenP.
+From TF Require gen.GuardGen.
 Import ListNotations.
 
 Theorem C01_search_exact : forall E s q m srt, Inv s -> wf_query E q -> index_safe q ->
@@ -47,6 +48,10 @@ Proof. exact sort_points_sorted. Qed.
 Theorem C01_sorted_stable : forall l t, filter (fun p => Z.eqb (p_time p) t) (sort_points l) = filter (fun p => Z.eqb (p_time p) t) l.
 Proof. exact sort_points_stable. Qed.
 
+(* the guard REGENERATED from tinyflux/database.py on every run (gen/GuardGen.v) is the model's guard, for every query *)
+Theorem C01_source_guard_is_the_model : forall q, GuardGen.index_is_exact (q_size q) q = index_is_exact q.
+Proof. exact gen_index_is_exact_size. Qed.
+
 (* the index alone: a duplicate-free set of positions that is exactly the set of matches *)
 Theorem C01_index_exact : forall E i pts q, Rep i pts -> wf_points pts -> wf_query E q -> exact_for_index q = true ->
   exists items, isearch E i q = Some items /\ NoDup items /\
@@ -64,5 +69,6 @@ Print Assumptions C01_select_exact.
 Print Assumptions C01_dsl_is_index_safe.
 Print Assumptions C01_reads_agree.
 Print Assumptions C01_sorted_stable.
+Print Assumptions C01_source_guard_is_the_model.
 Print Assumptions C01_index_exact.
 Print Assumptions C01_scan_exact.
